@@ -27,6 +27,12 @@ CLAIMED = {
  "C09": ("exploration", "differential monitor: independent CRC16/hash-tag model + backend execution logs",
    "Generated slot layouts installed through UMCTL SETCLUSTER on a real proxy; random/binary/brace/slot-targeted keys; every probe is judged by an independent slot model and by which FakeRedis node executed what.",
    "section 2, C09"),
+ "C03": ("exploration", "recorded client histories + per-key linearizability checker + final-placement monitor",
+   "Whole system in memory under virtual time; live resizes with concurrent uniquely-valued client traffic and seeded network latencies; every key's history is checked with an exact Wing-Gong search against a register/counter/list model (unknown outcomes stay open), then placement and values on the Redis stand-ins are compared with the set of possible final states.",
+   "section 2, C03"),
+ "C19": ("exploration", "scripted-reply monitor at the destination's RESTORE commands + expiry check in the C03 histories",
+   "PTTL replies of the source stand-in are scripted (-2, -1, 0, 1 .. 2^63-1, malformed) for keys moved by each of the three transfer paths (scan held back while pull/push run); the RESTORE ttl argument and the stored ttl at the destination are judged; in the traffic runs the expiry flag of every surviving key is compared with the model.",
+   "section 2, C19"),
  "C20": ("exploration", "end-to-end differential monitor (client bytes vs. bytes stored in the Redis stand-in)",
    "Whole path broker -> coordinator encoding -> two real proxies -> FakeRedis; every writer/reader pair, value class, strategy and redirect mode; stored bytes are zstd-decoded and compared, replies compared byte-for-byte, restricted commands must be refused and not executed.",
    "section 2, C20"),
